@@ -168,10 +168,19 @@ func c11Body(L int, modes []modeT) func(x *X) {
 
 // frame-size sweep: request and reply frames whose total length walks across the pool buffer size
 // (cap-1, cap, cap+1 of the read buffers are where "fits the pooled buffer" decisions flip)
-func c11Boundary(modes []modeT) func(x *X) {
+func c11Boundary(modes []modeT) func(x *X) { return c11BoundaryBuf(modes, 64) }
+
+// c11BoundaryBuf: buf is the configured buffer size on both sides (64 is a size class of the
+// buffer pools; 1000 is not: the pools round it up to 1024, so a buffer's length and capacity differ)
+func c11BoundaryBuf(modes []modeT, buf int) func(x *X) {
 	return func(x *X) {
 		m := modes[x.Choose(len(modes))]
-		size := 44 + x.Choose(30) // body bytes: the frames are 3..12 bytes longer
+		m.so.bufSize, m.co.bufSize = buf, buf
+		n := 30
+		if buf != 64 {
+			n = 50 // covers buf-20 .. buf+29: below the size, between the size and its class, above the class
+		}
+		size := buf - 20 + x.Choose(n) // body bytes: the frames are 3..12 bytes longer
 		double := x.Choose(2) == 1
 		f := newFixture(m.so, m.co)
 		f.w.keep = !m.so.noCopy
@@ -210,4 +219,47 @@ func init() {
 	register(&Scenario{Prop: "C11", Name: "c11/frame-boundary", Quick: []Bound{{0, 0}, {1, 0}}, Thorough: []Bound{{2, 0}}, Body: c11Boundary(c11Modes[:5])})
 	register(&Scenario{Prop: "C11", Name: "c11/L2", Quick: []Bound{{0, 0}, {1, 0}}, Thorough: []Bound{{2, 0}}, Body: c11Body(2, c11Modes)})
 	register(&Scenario{Prop: "C11", Name: "c11/L3", Quick: []Bound{{0, 0}}, Thorough: []Bound{{1, 0}}, Body: c11Body(3, c11Modes)})
+}
+
+// the same *Call used for several round trips (Conn.RoundTrip takes a caller-owned Call), each
+// with a fresh reply object: the reply of an earlier round trip, kept by the caller, is not
+// touched by a later one, whatever the relative sizes and whether a context buffer was used.
+func c11ReusedCall(x *X) {
+	m := c11Modes[x.Choose(5)]
+	sizes := [][3]int{{40, 12, 40}, {12, 40, 12}, {30, 30, 30}, {200, 20, 90}, {20, 200, 20}}[x.Choose(5)]
+	f := newFixture(m.so, m.co)
+	done := make(chan *rpc.Call, 1)
+	call := &rpc.Call{ServiceMethod: "Svc.Echo", Done: done}
+	type kept struct {
+		reply []byte
+		want  []byte
+		sum   string
+	}
+	var ks []*kept
+	for i, n := range sizes {
+		args := mkPayload(byte(i+1), 0, n)
+		k := &kept{want: transform(args)}
+		call.Args, call.Reply, call.Error = &args, &k.reply, nil
+		f.conn.RoundTrip(call)
+		recvCall(done)
+		if call.Error != nil || !eqBytes(k.reply, k.want) {
+			x.Fail("C11/reply-wrong-at-return/reused-call", "round trip %d with a reused Call: err=%v reply %x", i, call.Error, k.reply)
+			return
+		}
+		k.sum = digest(k.reply)
+		ks = append(ks, k)
+		for j, o := range ks {
+			if digest(o.reply) != o.sum || !eqBytes(o.reply, o.want) {
+				x.Fail("C11/client-data-mutated/reused-call", "the reply of round trip %d (%d bytes) changed when the same Call made round trip %d (%d bytes); sizes %v, mode %s", j, len(o.want), i, len(k.want), sizes, m.name)
+			}
+		}
+	}
+	x.Outcome("%s %v", m.name, sizes)
+	f.conn.Close()
+	vs.Quiesce()
+}
+
+func init() {
+	register(&Scenario{Prop: "C11", Name: "c11/frame-boundary-buf1000", Quick: []Bound{{0, 0}}, Thorough: []Bound{{1, 0}}, Body: c11BoundaryBuf(c11Modes[:5], 1000), BudgetQ: 15})
+	register(&Scenario{Prop: "C11", Name: "c11/reused-call", Quick: []Bound{{0, 0}, {1, 0}}, Thorough: []Bound{{2, 0}}, Body: c11ReusedCall, BudgetQ: 15})
 }
